@@ -1,2 +1,2 @@
-import OmplModel.Driver.Constrained
-def main : IO UInt32 := OmplModel.Driver.runEngine OmplModel.Driver.ConstrainedDrv.init OmplModel.Driver.ConstrainedDrv.step
+import OmplModel.Driver.ConstrainedAtlas
+def main : IO UInt32 := OmplModel.Driver.runEngine OmplModel.Driver.ConstrainedDrv.initA OmplModel.Driver.ConstrainedDrv.stepA
